@@ -236,6 +236,10 @@ type vProbe struct {
 	ctxs      []context.Context
 	dests     []Observer[int64]
 	script    []vStep // played synchronously inside Subscribe when cold
+	scripts   [][]vStep // if set: the n-th subscription plays scripts[n] (Complete when exhausted)
+	objs      []Subscription
+	closing   []bool
+	overlap   bool // a subscription was made while an earlier one was still live
 	cold      bool
 	itemCtx   bool // attach a per-item marker to the context of each Next
 }
@@ -248,13 +252,20 @@ func (p *vProbe) Subscribe(d Observer[int64]) Subscription {
 
 func (p *vProbe) register(ctx context.Context, d Observer[int64]) (int, func()) {
 	i := p.subs
+	if p.live > 0 {
+		p.overlap = true
+	}
 	p.subs++
 	p.live++
+	p.closing = append(p.closing, false)
 	p.ctxs = append(p.ctxs, ctx)
 	p.dests = append(p.dests, d)
 	p.torn = append(p.torn, 0)
 	p.ended = append(p.ended, false)
 	return i, func() {
+		if p.closing[i] {
+			return // the source closes its own subscription after its terminal
+		}
 		p.teardowns++
 		p.torn[i]++
 		if p.torn[i] == 1 && !p.ended[i] {
@@ -266,7 +277,16 @@ func (p *vProbe) register(ctx context.Context, d Observer[int64]) (int, func()) 
 func (p *vProbe) SubscribeWithContext(ctx context.Context, d Observer[int64]) Subscription {
 	i, teardown := p.register(ctx, d)
 	sub := NewSubscription(teardown)
-	if p.cold {
+	p.objs = append(p.objs, sub)
+	if p.scripts != nil {
+		if i < len(p.scripts) {
+			for _, st := range p.scripts[i] {
+				p.emitAt(i, st)
+			}
+		} else {
+			p.emitAt(i, vStep{kind: vkComplete})
+		}
+	} else if p.cold {
 		for _, st := range p.script {
 			p.emitAt(i, st)
 		}
@@ -287,6 +307,11 @@ func (p *vProbe) emitAt(i int, st vStep) {
 		p.ended[i] = true
 	}
 	vEmit(p.dests[i], ctx, st)
+	if st.kind != vkNext && i < len(p.objs) && !p.closing[i] {
+		// like every real source, the probe's subscription is closed once it has terminated
+		p.closing[i] = true
+		p.objs[i].Unsubscribe()
+	}
 }
 
 // emit sends a step to the most recent subscriber (hot use).
